@@ -498,6 +498,33 @@ class Interp:
                                         f'`{name}` differs between the two arms, so the result of a lane depends on what the other lanes of the same array hold', st)
         return r_some
 
+    def static_test(self, test, env):
+        """truth value of a test over Python ints known at analysis time (len of the operand tuple, constants), else None"""
+        def val(e):
+            if isinstance(e, ast.Constant) and type(e.value) is int:
+                return e.value
+            if isinstance(e, ast.Call) and isinstance(e.func, ast.Name) and e.func.id == 'len' and len(e.args) == 1 and not e.keywords:
+                try:
+                    v = self.ev(e.args[0], env)
+                except ModelError:
+                    return None
+                return len(v) if isinstance(v, tuple) else None
+            return None
+        if isinstance(test, ast.Compare) and len(test.ops) == 1:
+            a, b = val(test.left), val(test.comparators[0])
+            if a is None or b is None:
+                return None
+            return {ast.Eq: a == b, ast.NotEq: a != b, ast.Lt: a < b, ast.LtE: a <= b, ast.Gt: a > b, ast.GtE: a >= b}.get(type(test.ops[0]))
+        if isinstance(test, ast.UnaryOp) and isinstance(test.op, ast.Not):
+            t = self.static_test(test.operand, env)
+            return None if t is None else not t
+        if isinstance(test, ast.BoolOp):
+            vs = [self.static_test(v, env) for v in test.values]
+            if None in vs:
+                return None
+            return all(vs) if isinstance(test.op, ast.And) else any(vs)
+        return None
+
     def exec_stmt(self, st, env):
         self.steps += 1
         if isinstance(st, ast.Expr):
@@ -526,6 +553,12 @@ class Interp:
                 if r is not _NORET:
                     return r
             return _NORET
+        if isinstance(st, ast.If):
+            # a test on statically known integers (e.g. `len(ins) == 1`: the arity is fixed per table) selects one arm
+            t = self.static_test(st.test, env)
+            if t is None:
+                raise ModelError(f'statement If at line {st.lineno}: {ast.unparse(st.test)[:80]}')
+            return self.exec_block(st.body if t else st.orelse, env)
         if isinstance(st, ast.Return):
             return self.ev(st.value, env) if st.value is not None else None
         if isinstance(st, ast.Pass):
